@@ -254,6 +254,19 @@ pub fn gen_c15(rng: &mut Rng, thorough: bool) -> Vec<Tagged> {
         out.push(("mean-large".into(), Case::Mean(a.clone(), vec![b.clone(), a.clone()])));
         out.push(("clamp-large".into(), Case::Clamp(a.clone(), -0.25, 0.5)));
     }
+    // optional entries (the per-layer bias gradients of a feedback block): addition is positional; where
+    // either side has no entry the left entry is kept; every pattern of present / absent entries
+    for pat in 0..16u32 {
+        let n = 2 + (pat % 2) as usize;
+        let mk = |rng: &mut Rng, bits: u32| -> Vec<Option<Tensor>> {
+            (0..n).map(|i| if (bits >> i) & 1 == 1 { Some(t1(rng.vec(2, 1))) } else { None }).collect()
+        };
+        let a = mk(rng, pat & 7);
+        let b = mk(rng, (pat >> 1) ^ 5);
+        out.push(("nestedopt-add".into(), Case::NestedOptAdd(a, b)));
+    }
+    out.push(("nestedopt-add-length-mismatch".into(), Case::NestedOptAdd(vec![Some(t1(vec![1.0])), None], vec![Some(t1(vec![2.0]))])));
+    out.push(("nestedopt-add-inner-shape-mismatch".into(), Case::NestedOptAdd(vec![Some(t1(vec![1.0, 2.0]))], vec![Some(t1(vec![2.0]))])));
     // huge extents: beyond 2^10, 2^12 and 2^16 elements on every rank
     let huge: Vec<Shape> = if thorough {
         vec![Shape::Single(1100), Shape::Single(4100), Shape::Single(66000), Shape::Double(1030, 3), Shape::Double(3, 22001), Shape::Triple(3, 150, 150),
